@@ -378,7 +378,9 @@ class RealRun:
                 raise
             finally:
                 ARMED[0] = False
-                self.record(k, r, raised)
+                if not (via is not None and raised and not EVENTS):
+                    # (an entry point whose own internal `with` was refused never reached the term)
+                    self.record(k, r, raised)
         finally:
             self.block_check("probe", before)
 
